@@ -16,8 +16,8 @@ CAL3 = "/user/calendars/a"          # with the route prefix /a/b/, "/a/b" occurs
 # member names: URL-significant characters, a name that is a prefix of another up to '#'/'?',
 # a card inside a calendar collection, no extension
 CAL_NAMES = ["a.ics", "a#b.ics", "a", "q?x.ics", "q", "50%.ics", "sp ace.ics", "zoë.ics", "%41.ics", "A.ics",
-             "c.vcf", "semi;x.ics", "plus+.ics", "david.ics", "dav", "x=y&z.ics", "(p)!.ics"]
-BOOK_NAMES = ["k.vcf", "k#1.vcf", "e.ics", "ü.vcf"]
+             "c.vcf", "semi;x.ics", "plus+.ics", "david.ics", "dav", "x=y&z.ics", "(p)!.ics", ".draft.ics"]
+BOOK_NAMES = ["k.vcf", "k#1.vcf", "e.ics", "ü.vcf", ".k.vcf"]
 
 
 def gen_template(rng, toks, length):
@@ -36,6 +36,8 @@ def gen_template(rng, toks, length):
         p = rng.choice(paths)
         if r < 0.05:
             return ("echo",)
+        if r < 0.06:
+            return ("member", rng.choice([CAL + "/.draft.ics", BOOK + "/.k.vcf"]))
         if r < 0.34:
             return ("member", p)
         if r < 0.38:
@@ -76,7 +78,8 @@ def gen_template(rng, toks, length):
         ops.append(("PUT", p, ct, tok, "none", "none"))
 
     for p in paths:
-        if rng.random() < 0.7 or p in (CAL + "/david.ics", CAL3 + "/b.ics", CAL + "/a.ics", CAL + "/semi;x.ics"):
+        if rng.random() < 0.7 or p in (CAL + "/david.ics", CAL3 + "/b.ics", CAL + "/a.ics", CAL + "/semi;x.ics",
+                                      CAL + "/.draft.ics", BOOK + "/.k.vcf"):
             put(p)
     for _ in range(length):
         r = rng.random()
